@@ -290,7 +290,7 @@ class HyperTuner:
         self._df_fit["rank_mean"] = self._df_fit["trial_mean"].rank(ascending=ascending)
         self._df_fit["rank_std"] = self._df_fit["trial_std"].rank(ascending=ascending)
         self._df_fit["rank_mean_std"] = self._df_fit[["rank_mean", "rank_std"]].apply(tuple, axis=1).rank(
-            method="dense", ascending=ascending
+            method="dense", ascending=True
         )
         self._best_row = self._df_fit[self._df_fit["rank_mean_std"] == self._df_fit["rank_mean_std"].min()]
         self._best_params = self._best_row["params"].values[0]
